@@ -208,6 +208,7 @@ struct ReqCtx
   long long attemptStartV = 0;
   std::string hostPort;
   HttpClient* client = nullptr;
+  bool par = false;          // one of several concurrent callers: faults are bound by the server from X-Req-Id, nothing global is touched
 };
 static thread_local ReqCtx* t_ctx = nullptr;
 static void beginAttempt(ReqCtx& cx, int idx);
@@ -342,6 +343,12 @@ struct Server
   std::function<void(bool)> setAllowSwitch;
   std::atomic<int> inExchange{0};           // connections currently between first request byte and end of response
   std::atomic<int> maxInExchange{0};
+  // concurrent callers (`par`): the fault of an exchange is looked up from the request's X-Req-Id once the request is in
+  std::atomic<bool> parMode{false};
+  std::map<long long, std::vector<Fault>> parScripts; // guarded by mx
+  std::map<long long, int> parAttempt;                // guarded by mx
+  int hostEx[2] = {0, 0};                             // exchanges in progress per Host header (guarded by mx)
+  int hostExMax[2] = {0, 0};
 
   static void rst(int fd)
   {
@@ -480,6 +487,37 @@ struct Server
       }
       if (!acted && limited) acted = true; // offset beyond the request: act once the whole request is in
       if (!acted) note(ord, reqId, 0, 0, nullptr, true);
+      struct HostGuard
+      {
+        Server& s;
+        int h = -1;
+        ~HostGuard()
+        {
+          if (h >= 0)
+          {
+            std::lock_guard<std::mutex> g(s.mx);
+            s.hostEx[h]--;
+          }
+        }
+      } hostGuard{*this};
+      if (!acted && parMode.load())
+      {
+        long long id = -1;
+        auto p = in.find("\r\nX-Req-Id: ");
+        if (p != std::string::npos) id = std::strtoll(in.c_str() + p + 12, nullptr, 10);
+        int h = in.find("\r\nHost: localhost") != std::string::npos ? 1 : 0;
+        std::lock_guard<std::mutex> g(mx);
+        f = Fault{};
+        auto it = parScripts.find(id);
+        if (it != parScripts.end())
+        {
+          int k = parAttempt[id]++;
+          if (static_cast<std::size_t>(k) < it->second.size()) f = it->second[static_cast<std::size_t>(k)];
+        }
+        hostGuard.h = h;
+        hostEx[h]++;
+        if (hostEx[h] > hostExMax[h]) hostExMax[h] = hostEx[h];
+      }
       if (acted)
       {
         if (f.reqAct == 'r') { note(ord, reqId, 0, 0, "rst-req"); rst(fd); return; }
@@ -613,11 +651,20 @@ struct Server
 // =====================================================================================================================
 // Decorator around the real engine: records the calls of the requesting thread, can refuse a send
 // =====================================================================================================================
+static thread_local int t_tid = 0; // index of the calling thread within a `par` operation (0 otherwise)
+
+struct SpyCall
+{
+  char k;        // 'c' connect, 's' send, 'x' close
+  SessionId sid;
+  int tid;
+};
+
 struct SpyEngine : detail::EngineBase
 {
   std::unique_ptr<detail::EngineBase> real;
   std::mutex mx;
-  std::vector<std::pair<char, SessionId>> calls; // 'c' connect, 's' send, 'x' close
+  std::vector<SpyCall> calls;
   std::atomic<bool> failSend{false};
   std::atomic<long long> nOnData{0}, nOnClose{0}, nOnConnect{0};
 
@@ -625,7 +672,7 @@ struct SpyEngine : detail::EngineBase
   void rec(char k, SessionId s)
   {
     std::lock_guard<std::mutex> g(mx);
-    calls.emplace_back(k, s);
+    calls.push_back(SpyCall{k, s, t_tid});
   }
   StartResult start() override { return real->start(); }
   void stop() override { real->stop(); }
@@ -637,7 +684,7 @@ struct SpyEngine : detail::EngineBase
     // record under the lock together with the id so that the order of records is the order of ids
     std::lock_guard<std::mutex> g(mx);
     auto r = real->connect(h, p, t);
-    if (r.isOk()) calls.emplace_back('c', r.value());
+    if (r.isOk()) calls.push_back(SpyCall{'c', r.value(), t_tid});
     return r;
   }
   ConnectResult connectViaListener(ListenerId l, const std::string& h, std::uint16_t p) override
@@ -814,6 +861,12 @@ static void beginAttempt(ReqCtx& cx, int idx)
 {
   long long vnow = virtNowNs();
   if (idx > 0) cx.attemptVms.push_back((vnow - cx.attemptStartV) / 1000000LL);
+  if (cx.par)
+  {
+    cx.attempt = idx;
+    cx.attemptStartV = vnow;
+    return;
+  }
   // 1. undo what the previous attempt needed
   g_wantTimeout = false;
   g_refuse = false;
@@ -1049,7 +1102,8 @@ static std::string traceSince(std::size_t mark)
   std::string s;
   for (std::size_t i = mark; i < g_spy->calls.size(); ++i)
   {
-    auto [k, sid] = g_spy->calls[i];
+    char k = g_spy->calls[i].k;
+    SessionId sid = g_spy->calls[i].sid;
     if (k == 'c' && !g_sidOrd.count(sid)) g_sidOrd[sid] = g_nextSidOrd++;
     int ord = g_sidOrd.count(sid) ? g_sidOrd[sid] : 0;
     s += (s.empty() ? "" : ",") + std::string(1, k) + std::to_string(ord);
@@ -1075,6 +1129,116 @@ static std::string cacheState()
   std::string s;
   for (auto& i : items) s += (s.empty() ? "" : ",") + i;
   return "cache=" + (s.empty() ? std::string("-") : s) + " leased=" + std::to_string(leased);
+}
+
+// ---- concurrent callers sharing the client ----------------------------------------------------------------------------
+struct ParThread
+{
+  std::string method;
+  long long budget = 0;
+  int urlKind = 0;
+  std::vector<Fault> script;
+  long long reqId = 0;
+  std::string res;
+  int attempts = 0;
+  std::string body = "-";
+};
+
+static std::string classify(const std::function<void(std::string&)>& f, std::string& body)
+{
+  try
+  {
+    f(body);
+    return "";
+  }
+  catch (const HttpFramingError&) { return "err:framing"; }
+  catch (const HttpRequestNotSentError&) { return "err:notsent"; }
+  catch (const std::invalid_argument&) { return "err:invalid"; }
+  catch (const std::runtime_error& e) { return typeid(e) == typeid(std::runtime_error) ? "err:runtime" : "err:other"; }
+  catch (const std::exception&) { return "err:other"; }
+  catch (...) { return "err:nonstd"; }
+}
+
+// par <thread>...   with <thread> = <method hex>/<budget>/<url kind>/<token>;<token>;...
+static std::string doPar(std::vector<ParThread>& th)
+{
+  std::size_t mark;
+  {
+    std::lock_guard<std::mutex> g(g_spy->mx);
+    mark = g_spy->calls.size();
+  }
+  {
+    std::lock_guard<std::mutex> g(g_srv.mx);
+    g_srv.parScripts.clear();
+    g_srv.parAttempt.clear();
+    for (auto& t : th)
+    {
+      t.reqId = ++g_reqSeq;
+      g_srv.parScripts[t.reqId] = t.script;
+    }
+    g_srv.cur = Fault{};
+    g_srv.hostExMax[0] = g_srv.hostExMax[1] = 0;
+  }
+  g_srv.parMode = true;
+  g_opDeadlineReal = realMonoNs() + 120LL * 1000000000LL;
+  std::atomic<int> ready{0};
+  std::atomic<bool> go{false};
+  std::vector<std::thread> ts;
+  for (std::size_t i = 0; i < th.size(); ++i)
+  {
+    ts.emplace_back([&, i] {
+      ParThread& t = th[i];
+      ReqCtx cx;
+      cx.par = true;
+      cx.client = g_clientPtr;
+      cx.script = t.script;
+      t_tid = static_cast<int>(i);
+      std::string url = t.urlKind == 9 ? std::string("not a url")
+                                       : "http://" + std::string(t.urlKind == 1 ? "localhost" : "127.0.0.1") + ":" +
+                                           std::to_string(g_srv.port) + "/p" + std::to_string(t.reqId);
+      std::map<std::string, std::string> headers{{"X-Req-Id", std::to_string(t.reqId)}};
+      ready++;
+      while (!go.load()) realSleepUs(50);
+      t_ctx = &cx;
+      int status = 0;
+      std::string r = classify(
+        [&](std::string& body) {
+          auto resp = g_clientPtr->performRequest(t.method, url, "", headers, static_cast<int>(t.budget));
+          status = resp.statusCode;
+          body = vh::toHex(resp.body);
+        },
+        t.body);
+      t_ctx = nullptr;
+      t.res = r.empty() ? "ok:" + std::to_string(status) : r;
+      t.attempts = cx.attempt + 1;
+    });
+  }
+  while (ready.load() < static_cast<int>(th.size())) realSleepUs(50);
+  go = true;
+  for (auto& t : ts) t.join();
+  g_opDeadlineReal = 0;
+  g_srv.parMode = false;
+  waitAccepted();
+  std::ostringstream o;
+  {
+    std::lock_guard<std::mutex> g(g_spy->mx);
+    std::string s;
+    for (std::size_t i = mark; i < g_spy->calls.size(); ++i)
+    {
+      auto& c = g_spy->calls[i];
+      if (c.k == 'c' && !g_sidOrd.count(c.sid)) g_sidOrd[c.sid] = g_nextSidOrd++;
+      int ord = g_sidOrd.count(c.sid) ? g_sidOrd[c.sid] : 0;
+      s += (s.empty() ? "" : ",") + std::to_string(c.tid) + std::string(1, c.k) + std::to_string(ord);
+    }
+    o << "ev=" << (s.empty() ? "-" : s);
+  }
+  for (std::size_t i = 0; i < th.size(); ++i) o << " r" << i << "=" << th[i].res << "/" << th[i].attempts << "/" << th[i].body;
+  o << " " << cacheState();
+  {
+    std::lock_guard<std::mutex> g(g_srv.mx);
+    o << " | maxex=" << g_srv.hostExMax[0] << "," << g_srv.hostExMax[1];
+  }
+  return o.str();
 }
 
 int main()
@@ -1126,6 +1290,29 @@ int main()
         std::string ev = traceSince(mark); // assigns creation-order numbers to new session ids (before cacheState uses them)
         std::string cs = cacheState();
         return "ev=" + ev + " " + r.substr(0, sep) + " " + cs + " | " + r.substr(sep + 1);
+      }
+      if (t.size() >= 2 && t[0] == "par" && g_clientPtr)
+      {
+        std::vector<ParThread> th;
+        for (std::size_t i = 1; i < t.size(); ++i)
+        {
+          auto fs = splitc(t[i], '/');
+          if (fs.size() != 4) return "bad-op";
+          ParThread pt;
+          Bytes m;
+          long long uk = 0;
+          if (!vh::ofHex(fs[0], m) || !parseLL(fs[1], pt.budget) || !parseLL(fs[2], uk)) return "bad-op";
+          pt.method.assign(m.begin(), m.end());
+          pt.urlKind = static_cast<int>(uk);
+          for (auto& tk : splitc(fs[3], ';'))
+          {
+            Fault f;
+            if (!parseFault(tk, f)) return "bad-op";
+            pt.script.push_back(f);
+          }
+          th.push_back(std::move(pt));
+        }
+        return doPar(th);
       }
       if (t.size() == 3 && t[0] == "rrc")
       {
